@@ -22,8 +22,11 @@ const hookSrc = `// Package verifhook exists only in the verification build over
 package verifhook
 
 import (
+	"context"
 	"reflect"
 	"sync"
+	"sync/atomic"
+	"time"
 	"unsafe"
 )
 
@@ -205,6 +208,352 @@ func SignalOn(p any, broadcast bool) {
 	}
 }
 
+// ---- virtual time -------------------------------------------------------
+//
+// The overlay replaces, in the code under test, time.Now/Since/Until/Sleep/
+// After/AfterFunc/NewTimer/NewTicker/Tick, the types time.Timer/time.Ticker
+// and context.WithTimeout/WithDeadline/WithCancel/WithCancelCause/WithValue
+// (and their Cause variants) by the functions below: every clock read and
+// every deadline of the code under test reads the simulator's clock, a timer
+// is a task of the simulator that becomes runnable when its virtual time has
+// come, and a minute-long timeout costs nothing.
+
+var (
+	// NowUs is the virtual time in microseconds since the start of the run.
+	NowUs func() int64
+	// SleepUs parks the calling task for us microseconds of virtual time; it
+	// reports false outside a simulated phase.
+	SleepUs func(us int64, point string) bool
+	// SpawnAt registers a timer task that becomes runnable after us
+	// microseconds of virtual time (-1 outside a simulated phase).
+	SpawnAt func(us int64) int
+	// Hasten makes a sleeping timer task runnable at once.
+	Hasten func(h int)
+	// Alone reports whether only timer tasks are still alive.
+	Alone func() bool
+)
+
+var epoch = time.Date(2030, time.January, 1, 0, 0, 0, 0, time.UTC)
+
+func toUs(d time.Duration) int64 {
+	if d <= 0 {
+		return 0
+	}
+	return int64((d + time.Microsecond - 1) / time.Microsecond)
+}
+
+// Now is the simulator's clock.
+func Now() time.Time {
+	if NowUs != nil {
+		return epoch.Add(time.Duration(NowUs()) * time.Microsecond)
+	}
+	return time.Now()
+}
+
+func Since(t time.Time) time.Duration { return Now().Sub(t) }
+
+func Until(t time.Time) time.Duration { return t.Sub(Now()) }
+
+func Sleep(d time.Duration) {
+	if SleepUs != nil && SleepUs(toUs(d), "sleep") {
+		return
+	}
+	if NowUs == nil {
+		time.Sleep(d)
+	}
+}
+
+// timerGen is one arming of a timer: 0 armed, 1 stopped, 2 fired.
+type timerGen struct {
+	state int32
+	h     int
+}
+
+// Timer stands in for time.Timer.
+type Timer struct {
+	C    <-chan time.Time
+	c    chan time.Time
+	f    func()
+	mu   sync.Mutex
+	gen  *timerGen
+	real *time.Timer
+}
+
+func (t *Timer) arm(d time.Duration) {
+	h := -1
+	if SpawnAt != nil {
+		h = SpawnAt(toUs(d))
+	}
+	if h < 0 {
+		// not inside a simulated phase: the real thing
+		if t.f != nil {
+			t.real = time.AfterFunc(d, t.f)
+		} else {
+			t.real = time.NewTimer(d)
+			t.C = t.real.C
+		}
+		return
+	}
+	g := &timerGen{h: h}
+	t.gen = g
+	f, c := t.f, t.c
+	go func() {
+		GoEnter(h)
+		defer GoExit(h)
+		if !atomic.CompareAndSwapInt32(&g.state, 0, 2) {
+			return // stopped
+		}
+		if f != nil {
+			f()
+			return
+		}
+		select {
+		case c <- Now():
+		default:
+		}
+	}()
+}
+
+func (t *Timer) disarm() bool {
+	if t.real != nil {
+		r := t.real.Stop()
+		t.real = nil
+		return r
+	}
+	g := t.gen
+	if g == nil {
+		return false
+	}
+	t.gen = nil
+	was := atomic.CompareAndSwapInt32(&g.state, 0, 1)
+	if was && Hasten != nil {
+		Hasten(g.h)
+	}
+	if t.c != nil {
+		// Go 1.23 semantics: no stale value is received after Stop/Reset
+		select {
+		case <-t.c:
+		default:
+		}
+	}
+	return was
+}
+
+func (t *Timer) Stop() bool {
+	t.mu.Lock()
+	defer t.mu.Unlock()
+	return t.disarm()
+}
+
+func (t *Timer) Reset(d time.Duration) bool {
+	t.mu.Lock()
+	defer t.mu.Unlock()
+	was := t.disarm()
+	if t.c != nil {
+		t.C = t.c
+	}
+	t.arm(d)
+	return was
+}
+
+func NewTimer(d time.Duration) *Timer {
+	t := &Timer{c: make(chan time.Time, 1)}
+	t.C = t.c
+	t.mu.Lock()
+	t.arm(d)
+	t.mu.Unlock()
+	return t
+}
+
+func AfterFunc(d time.Duration, f func()) *Timer {
+	t := &Timer{f: f}
+	t.mu.Lock()
+	t.arm(d)
+	t.mu.Unlock()
+	return t
+}
+
+func After(d time.Duration) <-chan time.Time { return NewTimer(d).C }
+
+// Ticker stands in for time.Ticker.
+type Ticker struct {
+	C    <-chan time.Time
+	c    chan time.Time
+	mu   sync.Mutex
+	gen  *timerGen
+	real *time.Ticker
+}
+
+func (t *Ticker) arm(d time.Duration) {
+	if d <= 0 {
+		panic("non-positive interval for NewTicker")
+	}
+	h := -1
+	if SpawnAt != nil {
+		h = SpawnAt(toUs(d))
+	}
+	if h < 0 {
+		t.real = time.NewTicker(d)
+		t.C = t.real.C
+		return
+	}
+	g := &timerGen{h: h}
+	t.gen = g
+	c := t.c
+	go func() {
+		GoEnter(h)
+		defer GoExit(h)
+		for atomic.LoadInt32(&g.state) == 0 {
+			select {
+			case c <- Now():
+			default:
+			}
+			if Alone != nil && Alone() {
+				return // nobody left to tick for
+			}
+			if SleepUs == nil || !SleepUs(toUs(d), "tick") {
+				return
+			}
+		}
+	}()
+}
+
+func (t *Ticker) disarm() {
+	if t.real != nil {
+		t.real.Stop()
+		t.real = nil
+		return
+	}
+	if g := t.gen; g != nil {
+		t.gen = nil
+		if atomic.CompareAndSwapInt32(&g.state, 0, 1) && Hasten != nil {
+			Hasten(g.h)
+		}
+	}
+}
+
+func (t *Ticker) Stop() {
+	t.mu.Lock()
+	defer t.mu.Unlock()
+	t.disarm()
+}
+
+func (t *Ticker) Reset(d time.Duration) {
+	t.mu.Lock()
+	defer t.mu.Unlock()
+	t.disarm()
+	select {
+	case <-t.c:
+	default:
+	}
+	t.C = t.c
+	t.arm(d)
+}
+
+func NewTicker(d time.Duration) *Ticker {
+	t := &Ticker{c: make(chan time.Time, 1)}
+	t.C = t.c
+	t.mu.Lock()
+	t.arm(d)
+	t.mu.Unlock()
+	return t
+}
+
+func Tick(d time.Duration) <-chan time.Time {
+	if d <= 0 {
+		return nil
+	}
+	return NewTicker(d).C
+}
+
+// vctx wraps every context the code under test derives. A context whose
+// deadline is virtual is a cancel context cancelled by a virtual timer with
+// the cause context.DeadlineExceeded; Err of it and of everything derived
+// from it then says DeadlineExceeded, as for a real deadline.
+type vctx struct {
+	context.Context
+	dl    time.Time
+	hasDL bool
+}
+
+func (c *vctx) Err() error {
+	e := c.Context.Err()
+	if e != nil && context.Cause(c.Context) == context.DeadlineExceeded {
+		return context.DeadlineExceeded
+	}
+	return e
+}
+
+func (c *vctx) Deadline() (time.Time, bool) {
+	if c.hasDL {
+		return c.dl, true
+	}
+	return c.Context.Deadline()
+}
+
+func (c *vctx) String() string { return "verif.virtualContext" }
+
+// DeadlineFired reports whether ctx has ended because a virtual deadline of
+// the code under test passed.
+func DeadlineFired(ctx context.Context) bool {
+	return ctx != nil && ctx.Err() != nil && context.Cause(ctx) == context.DeadlineExceeded
+}
+
+func CtxWithCancel(parent context.Context) (context.Context, context.CancelFunc) {
+	inner, cancel := context.WithCancel(parent)
+	return &vctx{Context: inner}, cancel
+}
+
+func CtxWithCancelCause(parent context.Context) (context.Context, context.CancelCauseFunc) {
+	inner, cancel := context.WithCancelCause(parent)
+	return &vctx{Context: inner}, cancel
+}
+
+func CtxWithValue(parent context.Context, key, val any) context.Context {
+	return &vctx{Context: context.WithValue(parent, key, val)}
+}
+
+func CtxWithoutCancel(parent context.Context) context.Context {
+	return &vctx{Context: context.WithoutCancel(parent)}
+}
+
+func CtxWithTimeout(parent context.Context, d time.Duration) (context.Context, context.CancelFunc) {
+	return CtxWithTimeoutCause(parent, d, nil)
+}
+
+func CtxWithDeadline(parent context.Context, at time.Time) (context.Context, context.CancelFunc) {
+	return CtxWithTimeoutCause(parent, Until(at), nil)
+}
+
+func CtxWithDeadlineCause(parent context.Context, at time.Time, cause error) (context.Context, context.CancelFunc) {
+	return CtxWithTimeoutCause(parent, Until(at), cause)
+}
+
+// CtxWithTimeoutCause: a cause other than nil is not distinguished from
+// DeadlineExceeded by Cause (the wrapper needs the cause to recognise a
+// virtual deadline); Err is exact.
+func CtxWithTimeoutCause(parent context.Context, d time.Duration, cause error) (context.Context, context.CancelFunc) {
+	if SpawnAt == nil || NowUs == nil {
+		return context.WithTimeoutCause(parent, d, cause)
+	}
+	at := Now().Add(d)
+	if cur, ok := parent.Deadline(); ok && cur.Before(at) {
+		// the parent ends first
+		return CtxWithCancel(parent)
+	}
+	inner, cancel := context.WithCancelCause(parent)
+	c := &vctx{Context: inner, dl: at, hasDL: true}
+	if d <= 0 {
+		cancel(context.DeadlineExceeded)
+		return c, func() { cancel(context.Canceled) }
+	}
+	tm := AfterFunc(d, func() { cancel(context.DeadlineExceeded) })
+	return c, func() {
+		tm.Stop()
+		cancel(context.Canceled)
+	}
+}
+
 // SelBegin / SelNext make a select statement with several cases
 // deterministic: before blocking, the cases are polled one by one, in an
 // order the simulator chooses, while the calling task still has the baton.
@@ -256,6 +605,7 @@ type Report struct {
 	BlockSites  []string `json:"block_sites"`
 	GoSites     []string `json:"go_sites"`
 	SelectSites int      `json:"select_sites"`
+	TimeSites   int      `json:"time_sites"`
 	OnceSites   int      `json:"once_sites"`
 	SizeSites   []string `json:"lru_size_sites"`
 	ProbeSites  []string `json:"probe_sites,omitempty"`
@@ -413,6 +763,99 @@ func rewriteSelects(filename string, src []byte) ([]byte, int, error) {
 	return []byte(out), n, nil
 }
 
+// timeFuncs / ctxFuncs: what the virtual-time pre-pass replaces.
+var timeFuncs = map[string]string{
+	"Now": "Now", "Since": "Since", "Until": "Until", "Sleep": "Sleep", "After": "After", "AfterFunc": "AfterFunc",
+	"NewTimer": "NewTimer", "NewTicker": "NewTicker", "Tick": "Tick", "Timer": "Timer", "Ticker": "Ticker",
+}
+
+var ctxFuncs = map[string]string{
+	"WithTimeout": "CtxWithTimeout", "WithDeadline": "CtxWithDeadline", "WithCancel": "CtxWithCancel",
+	"WithCancelCause": "CtxWithCancelCause", "WithValue": "CtxWithValue", "WithoutCancel": "CtxWithoutCancel",
+	"WithTimeoutCause": "CtxWithTimeoutCause", "WithDeadlineCause": "CtxWithDeadlineCause",
+}
+
+// rewriteTime is a pre-pass over one source file: clock reads, sleeps, timers
+// and context deadlines of the code under test are redirected to the
+// simulator's clock (see the hook package). Replacements stay on their line.
+func rewriteTime(filename string, src []byte) ([]byte, int, error) {
+	fset := token.NewFileSet()
+	af, err := parser.ParseFile(fset, filename, src, 0) // with object resolution: a local named time is not the package
+	if err != nil {
+		return nil, 0, err
+	}
+	timeName, ctxName := "", ""
+	for _, im := range af.Imports {
+		path := strings.Trim(im.Path.Value, "\"`")
+		name := ""
+		if im.Name != nil {
+			name = im.Name.Name
+		}
+		switch path {
+		case "time":
+			if name == "" {
+				name = "time"
+			}
+			timeName = name
+		case "context":
+			if name == "" {
+				name = "context"
+			}
+			ctxName = name
+		}
+	}
+	if (timeName == "" || timeName == "_" || timeName == ".") && (ctxName == "" || ctxName == "_" || ctxName == ".") {
+		return src, 0, nil
+	}
+	var edits []edit
+	var ends []int
+	usedTime, usedCtx := false, false
+	ast.Inspect(af, func(n ast.Node) bool {
+		sel, ok := n.(*ast.SelectorExpr)
+		if !ok {
+			return true
+		}
+		id, ok := sel.X.(*ast.Ident)
+		if !ok || id.Obj != nil {
+			return true
+		}
+		var to string
+		switch {
+		case timeName != "" && id.Name == timeName:
+			to = timeFuncs[sel.Sel.Name]
+			usedTime = usedTime || to != ""
+		case ctxName != "" && id.Name == ctxName:
+			to = ctxFuncs[sel.Sel.Name]
+			usedCtx = usedCtx || to != ""
+		}
+		if to == "" {
+			return true
+		}
+		edits = append(edits, edit{fset.Position(id.Pos()).Offset, "verifhook." + to})
+		ends = append(ends, fset.Position(sel.Sel.End()).Offset)
+		return true
+	})
+	if len(edits) == 0 {
+		return src, 0, nil
+	}
+	var sb strings.Builder
+	last := 0
+	for i, e := range edits {
+		sb.Write(src[last:e.off])
+		sb.WriteString(e.text)
+		last = ends[i]
+	}
+	sb.Write(src[last:])
+	// keep the imports used
+	if usedTime {
+		fmt.Fprintf(&sb, "\nvar _ = %s.Nanosecond\n", timeName)
+	}
+	if usedCtx {
+		fmt.Fprintf(&sb, "\nvar _ = %s.Background\n", ctxName)
+	}
+	return []byte(sb.String()), len(edits), nil
+}
+
 // Generate writes the overlay for repo into dir and returns the path of the
 // overlay JSON file.
 func Generate(repo, dir string) (string, *Report, error) {
@@ -460,6 +903,11 @@ func Generate(repo, dir string) (string, *Report, error) {
 			return "", nil, fmt.Errorf("parse %s: %w", f, err)
 		}
 		rep.SelectSites += nsel
+		var ntime int
+		if src, ntime, err = rewriteTime(f, src); err != nil {
+			return "", nil, fmt.Errorf("parse %s (after the select pre-pass): %w", f, err)
+		}
+		rep.TimeSites += ntime
 		fset := token.NewFileSet()
 		af, err := parser.ParseFile(fset, f, src, parser.SkipObjectResolution)
 		if err != nil {
@@ -793,7 +1241,7 @@ func Generate(repo, dir string) (string, *Report, error) {
 			}
 			return true
 		})
-		if len(edits) == 0 {
+		if len(edits) == 0 && ntime == 0 {
 			continue
 		}
 		// import on the package clause's line
